@@ -454,14 +454,81 @@ func VH_C02_address_forms() {
 	verifAssume(!entries[0].SaltGenerator.IsServerSalt(stream[:key.SaltSize()]))
 	conn := &verifStreamConn{name: "client", remote: &net.TCPAddr{IP: net.IPv4(203, 0, 113, 5), Port: 50000}}
 	conn.reads = []verifSRead{{data: stream}}
+	// (a transport that does not support deadlines is still a connection to serve)
+	conn.deadlineUnsupported = verifFlag("transport-without-deadlines")
 	target := &verifStreamConn{name: "target", remote: &net.TCPAddr{IP: net.IPv4(93, 184, 216, 34), Port: 80}}
 	dialer := &verifDialer{conn: target}
 	h := NewStreamHandler(NewShadowsocksStreamAuthenticator(cl, nil, nil, nil), tcpReadTimeout)
 	h.SetTargetDialer(dialer)
 	m := &verifTCPMetrics{}
 	h.Handle(context.Background(), conn, m)
+	verifAssert("C01.forms.authenticated-under-its-key", len(m.authenticated) == 1 && m.authenticated[0] == "id-0")
 	verifAssert("C02.forms.dialed-the-named-address", len(dialer.dials) == 1 && dialer.dials[0] == wantDial)
 	verifAssert("C02.forms.payload-intact", len(target.written) == 3 && verifBytesEq(target.written, data))
 	verifAssert("C02.forms.closed-ok", len(m.closed) == 1 && m.closed[0] == "OK")
 	verifReach("C02.forms.done", true)
+}
+
+// a chunk with an empty payload is a valid chunk, not the end of the stream: what the client sends
+// after it still reaches the target, and the target sees the end only after all of it
+func VH_C02_empty_chunk_mid_stream() {
+	cl, specs, entries := verifMakeList(1, 1, false)
+	key := verifKey(specs[0].cipher, verifSecrets[specs[0].secret])
+	d1, d2 := verifBytes("d1", 2), verifBytes("d2", 3)
+	chunks := [][]byte{{1, 93, 184, 216, 34, 0, 80}}
+	at := verifChoice("empty-chunk-at", 3) // right after the header, between the data chunks, at the end
+	if at == 0 {
+		chunks = append(chunks, []byte{})
+	}
+	chunks = append(chunks, d1)
+	if at == 1 {
+		chunks = append(chunks, []byte{})
+	}
+	chunks = append(chunks, d2)
+	if at == 2 {
+		chunks = append(chunks, []byte{})
+	}
+	stream := verifClientStreamRaw(key, chunks...)
+	verifAssume(!entries[0].SaltGenerator.IsServerSalt(stream[:key.SaltSize()]))
+	var glog []string
+	conn := &verifStreamConn{name: "client", glog: &glog, remote: &net.TCPAddr{IP: net.IPv4(203, 0, 113, 5), Port: 50000}}
+	conn.reads = []verifSRead{{data: stream}}
+	target := &verifStreamConn{name: "target", glog: &glog, remote: &net.TCPAddr{IP: net.IPv4(93, 184, 216, 34), Port: 80}}
+	dialer := &verifDialer{conn: target}
+	h := NewStreamHandler(NewShadowsocksStreamAuthenticator(cl, nil, nil, nil), tcpReadTimeout)
+	h.SetTargetDialer(dialer)
+	m := &verifTCPMetrics{}
+	h.Handle(context.Background(), conn, m)
+	want := append(append([]byte{}, d1...), d2...)
+	verifAssert("C02.empty-chunk.everything-after-it-is-relayed", len(target.written) == 5 && verifBytesEq(target.written, want))
+	verifAssert("C02.empty-chunk.target-fin-after-client-eof", verifIndexStr(glog, "client:ReadEnd") >= 0 && verifIndexStr(glog, "client:ReadEnd") < verifIndexStr(glog, "target:CloseWrite"))
+	verifAssert("C02.empty-chunk.closed-ok", len(m.closed) == 1 && m.closed[0] == "OK")
+	verifReach("C02.empty-chunk.done", true)
+}
+
+// each chunk sealed as given, also an empty one (the SDK's Writer skips empty writes)
+func verifClientStreamRaw(key *shadowsocks.EncryptionKey, chunks ...[]byte) []byte {
+	salt := make([]byte, key.SaltSize())
+	verifFixedSaltGen{6}.GetSalt(salt)
+	aead, err := key.NewAEAD(salt)
+	if err != nil {
+		panic(err)
+	}
+	out := append([]byte{}, salt...)
+	nonce := make([]byte, aead.NonceSize())
+	inc := func() {
+		for i := range nonce {
+			nonce[i]++
+			if nonce[i] != 0 {
+				break
+			}
+		}
+	}
+	for _, c := range chunks {
+		out = aead.Seal(out, nonce, []byte{byte(len(c) >> 8), byte(len(c))}, nil)
+		inc()
+		out = aead.Seal(out, nonce, c, nil)
+		inc()
+	}
+	return out
 }
